@@ -65,6 +65,10 @@ pub fn send(ch: &Choices, disk: &Disk, max_frames: u64, small: bool) -> Result<V
         }
         let len = if small {
             1 + ch.draw("c16.len.s", 24) as usize
+        } else if ch.draw("c16.len.big", 16) == 15 {
+            // block lengths beyond the "streamable subset" limits and at the top of the 16-bit field
+            probe("c16_block_longer_than_4608");
+            *ch.pick("c16.len.b", &[4609usize, 8192, 16384, 16385, 32768, 65535])
         } else if ch.draw("c16.len.mode", 4) == 3 {
             *ch.pick("c16.len.c", &[128usize, 256, 192, 576, 1152, 512])
         } else {
